@@ -75,6 +75,12 @@ func init() {
 		t := a[0].(*Term)
 		return ex.ts.Not(ex.ts.Or(ex.ts.FIsNaN(t), ex.ts.FIsInf(t)))
 	}
+	I[rtPkg+"Tiered"] = func(ex *Exec, a []Value) Value {
+		if ex.h.RunTier == "thorough" {
+			return a[1]
+		}
+		return a[0]
+	}
 	I[rtPkg+"Symbolic"] = func(ex *Exec, a []Value) Value { return ex.ts.Bool(true) }
 	I[rtPkg+"CancelCtx"] = func(ex *Exec, a []Value) Value {
 		name := a[0].(string)
